@@ -45,6 +45,14 @@ fn ledgers() -> Vec<(String, Vec<Transaction>)> {
     }
     l.reverse();
     out.push(("4 securities x 4 years, reversed input".to_string(), l));
+    // L4: tickers that stress the comparator: proper prefixes of one another, digits vs letters
+    let mut l = vec![];
+    for (i, tk) in ["GOOG", "G", "GOOGL", "GO", "G0"].iter().enumerate() {
+        l.push(alpha::buy(alpha::date(2022, 3, 1), tk, "30", &format!("{}", 7 + i), "0"));
+        l.push(alpha::sell(alpha::date(2023, 2, 1), tk, "10", &format!("{}", 9 + i), "0"));
+        l.push(alpha::sell(alpha::date(2024, 2, 1), tk, "5", &format!("{}", 8 + i), "0.1"));
+    }
+    out.push(("5 prefix-related tickers (G, G0, GO, GOOG, GOOGL), disposals on shared dates, all still held".to_string(), l));
     out
 }
 
@@ -141,6 +149,10 @@ pub fn c16(tier: Tier) -> i32 {
             let mut distinct: std::collections::BTreeSet<String> = std::collections::BTreeSet::new();
             distinct.insert(base.out.clone());
             let mut frontier: Vec<Vec<usize>> = vec![vec![]];
+            // ledgers whose traversals have 5 or more entries (arity 120) are explored one level less deep
+            let max_arity = base.log.iter().map(|c| c.1).max().unwrap_or(0);
+            let depth = if max_arity > 24 { depth.saturating_sub(1).max(1) } else { depth };
+            acc.bump(&format!("ledgers-explored-to-{depth}-deviations"));
             for d in 1..=depth {
                 let mut next = vec![];
                 for pre in &frontier {
